@@ -122,7 +122,8 @@ def proj_tk(t):
 def build_tk(a):
     """abstract tket circuit -> discopy.quantum.tk.Circuit"""
     from discopy.quantum import tk
-    t = tk.Circuit(a["nq"], a["nb"])
+    # (post-selection goes through the constructor: post_select() on a finished circuit does not shrink post_processing)
+    t = tk.Circuit(a["nq"], a["nb"], post_selection={p["b"]: p["v"] for p in a["postsel"]} or None)
     for c in a["cmds"]:
         if c["op"] == "Measure":
             t.Measure(c["qs"][0], c["bs"][0])
@@ -130,8 +131,6 @@ def build_tk(a):
             getattr(t, c["op"])(c["ph"] / 4, *c["qs"])
         else:
             getattr(t, c["op"])(*c["qs"])
-    if a["postsel"]:
-        t.post_select({p["b"]: p["v"] for p in a["postsel"]})
     return t
 
 
@@ -240,9 +239,10 @@ def observe_to(mc):
     return rec, t
 
 
-def observe_from(tk_abs, tk_real=None):
+def observe_from(tk_abs, tk_real=None, src=None):
+    """src: the circuit whose export tk_real is (kept so that a replay can redo export and import)"""
     from discopy.quantum.circuit import Circuit
-    rec = {"kind": "from_tk", "mc": EMPTY_MC, "tk": tk_abs, "exc": "", "refused": 0}
+    rec = {"kind": "from_tk", "mc": EMPTY_MC, "tk": tk_abs, "exc": "", "refused": 0, "src": src}
     try:
         t = tk_real if tk_real is not None else build_tk(tk_abs)
         back = Circuit.from_tk(t)
@@ -303,11 +303,22 @@ def postselection_chain_family():
     return out
 
 
+def bit_after_copy_family():
+    """a bit created after a classical gate that changes the number of bits (Copy, Match)"""
+    out = []
+    for x in (0, 1):
+        head = [{"g": _mg("Ket", bits=[x]), "off": 0}, {"g": _mg("Measure", n=1, f1=1, f2=0), "off": 0}]
+        out.append({"ty": [], "layers": head + [{"g": _mg("Copy"), "off": 0}, {"g": _mg("Bits", bits=[0]), "off": 2}]})
+        out.append({"ty": [], "layers": head + [{"g": _mg("Copy"), "off": 0}, {"g": _mg("Match"), "off": 0},
+                                                 {"g": _mg("Bits", bits=[0]), "off": 1}]})
+    return out
+
+
 def work_one(mc):
     rec, t = observe_to(mc)
     out = [rec]
     if t is not None:
-        out.append(observe_from(rec["tk"], t))
+        out.append(observe_from(rec["tk"], t, src=mc))
     return out
 
 
@@ -334,9 +345,14 @@ def random_tk(rnd):
 def features(mc):
     """which of the situations named in known_findings.json occur in the circuit"""
     ty = list(mc["ty"])
-    out = {"discards-bit": 0, "new-bit-left-of-existing-bit": 0}
+    out = {"discards-bit": 0, "new-bit-left-of-existing-bit": 0, "new-bit-after-copy-or-match": 0}
+    arity_changed = False
     for l in mc["layers"]:
         g, o = l["g"], l["off"]
+        if arity_changed and (g["k"] == "Bits" or (g["k"] == "Measure" and not g["f2"])):
+            out["new-bit-after-copy-or-match"] = 1
+        if g["k"] in ("Copy", "Match"):
+            arity_changed = True
         dom = (["q"] * g["n"] + (["b"] * g["n"] if g["f2"] else [])) if g["k"] == "Measure" else None
         if g["k"] == "Discard" and "b" in g["tl"]:
             out["discards-bit"] = 1
@@ -401,7 +417,7 @@ def run(tier, seed, t0):
         os.remove(model["dump"])
         n_all = len(circuits)
         sample = circuits if len(circuits) <= c["replay"] else rnd.sample(circuits, c["replay"])
-        sample = sample + dead_wire_family() + postselection_chain_family()
+        sample = sample + dead_wire_family() + postselection_chain_family() + bit_after_copy_family()
         with mp.get_context("fork").Pool(16) as pool:
             nested = pool.map(work_one, sample, chunksize=4)
         recs = [r for group in nested for r in group]
@@ -435,7 +451,7 @@ def run(tier, seed, t0):
                     r["kind"], ",".join(boxes), qadapt.describe_mixed(r["mc"]), r["tk"]["nq"], r["tk"]["nb"],
                     [(x["op"], x["qs"], x["bs"]) for x in r["tk"]["cmds"]], [(p["b"], p["v"]) for p in r["tk"]["postsel"]],
                     r["exc"] or r.get("counts_exc") or r.get("evalb_exc") or "-")
-                rejected.append({"clause": clause, "sig": sig, "obs": {"kind": r["kind"], "mc": r["mc"], "tk": r["tk"]}})
+                rejected.append({"clause": clause, "sig": sig, "obs": {"kind": r["kind"], "mc": r["mc"], "tk": r["tk"], "src": r.get("src")}})
         # canary: drop the last command of an exported circuit that matters
         can = None
         for r, e in zip(judged, exp):
@@ -475,6 +491,9 @@ def replay(path):
         if t["kind"] == "to_tk":
             rec, _ = observe_to(t["mc"])
             rec["kind"] = "to_tk"
+        elif t.get("src"):
+            exported, real_tk = observe_to(t["src"])          # redo the export, then import the real object
+            rec = observe_from(exported["tk"], real_tk, src=t["src"]) if real_tk is not None else exported
         else:
             rec = observe_from(t["tk"])
         tf = os.path.join(work, "one.ndjson")
